@@ -39,6 +39,9 @@ type pool struct {
 	providers int
 	release   chan struct{} // closed at the end of the run
 	held      atomic.Int32  // calls blocked in mNever
+	hanging   atomic.Int32  // calls blocked in mHangCtx (until their context is done)
+	pcalls    map[*pcall]struct{}
+	clockSlot func() uint64
 	inflight  atomic.Int32  // calls inside a double that are not held
 	mu        sync.Mutex
 	barriers  map[string]*barrier
@@ -55,7 +58,7 @@ type barrier struct {
 }
 
 func newPool(mix string, providers int) *pool {
-	return &pool{mix: mix, providers: providers, release: make(chan struct{}), barriers: map[string]*barrier{}}
+	return &pool{mix: mix, providers: providers, release: make(chan struct{}), barriers: map[string]*barrier{}, pcalls: map[*pcall]struct{}{}}
 }
 
 // modeFor is a pure function of the case: which behaviour provider idx shows for
@@ -112,7 +115,20 @@ func (p *pool) modeFor(what string, key uint64, idx int) mode {
 // do applies the behaviour; a nil error means "answer now".
 func (p *pool) do(ctx context.Context, what string, key uint64, idx int) error {
 	p.calls.Add(1)
+	pc := p.enter(ctx, what, idx)
+	defer p.exit(pc)
 	m := p.modeFor(what, key, idx)
+	if m == mHangCtx {
+		// the node accepted the request and does not answer; only the caller can end it
+		p.hanging.Add(1)
+		defer p.hanging.Add(-1)
+		select {
+		case <-ctx.Done():
+			return ctx.Err()
+		case <-p.release:
+			return errors.New("released")
+		}
+	}
 	if m == mNever {
 		p.never.Add(1)
 		p.held.Add(1)
